@@ -338,6 +338,19 @@ func runPollScenario(sc pollScenario) (*pollResult, error) {
 			c.in = append(c.in, frames...)
 			c.mu.Unlock()
 			c.cond.Broadcast()
+		case "openeof":
+			// a stream-open request (slowly decoded) with the end of the connection right behind it
+			c := e.conns[atoi(f[1])]
+			q := seq[c.id]
+			seq[c.id]++
+			e.mu.Lock()
+			e.slow[q] = time.Duration(atoi(f[3])) * time.Millisecond
+			e.mu.Unlock()
+			c.mu.Lock()
+			c.in = append(c.in, pollRequest(atoi(f[2]), q, 0xC8, "P.Stream"))
+			c.eof = true
+			c.mu.Unlock()
+			c.cond.Broadcast()
 		case "eof":
 			c := e.conns[atoi(f[1])]
 			c.mu.Lock()
@@ -442,7 +455,7 @@ func checkPoll(sc pollScenario, r *pollResult) []connVerdict {
 	// C10: after the peer has gone every stream handler of the connection has returned
 	eofAll := true
 	for _, a := range r.actions {
-		if strings.HasPrefix(a, "open") {
+		if strings.HasPrefix(a, "open ") {
 			eofAll = eofAll && strings.Contains(strings.Join(r.actions, ";"), "eof "+strings.Fields(a)[1])
 		}
 	}
@@ -465,6 +478,7 @@ func pollCorpus() []pollScenario {
 		mk("three-workers-burst", 3, "conn", "burst 0 1,2,3,4,5,6 10", "wait", "burst 0 7,8,9", "wait", "eof 0", "wait")
 		mk("burst-then-eof", 2, "conn", "burst 0 1,2,3,4,5,6,7,8", "eof 0", "wait")
 		mk("two-connections", 2, "conn", "conn", "burst 0 1,2,3 15", "burst 1 11,12,13 15", "wait", "eof 0", "eof 1", "wait")
+		mk("stream-open-then-eof-at-once", 2, "conn", "openeof 0 1 40", "wait", "wait")
 		mk("stream-then-eof", 2, "conn", "open 0 1", "wait", "req 0 2", "wait", "eof 0", "wait")
 	}
 	return out
